@@ -33,7 +33,7 @@ static void print_objects(hwloc_topology_t t)
   hwloc_obj_t o;
   for (d = 1; d < depth; d++) {
     hwloc_obj_type_t ty = hwloc_get_depth_type(t, d);
-    if (ty == HWLOC_OBJ_GROUP) continue;
+    /* Group lines are compared one way only (model's kept groups must be present): the core adds / merges Groups */
     for (o = hwloc_get_obj_by_depth(t, d, 0); o; o = o->next_cousin) {
       printf("O %d %u %llu ", (int)ty, o->os_index, hwloc_obj_type_is_cache(ty) ? (unsigned long long)o->attr->cache.size : 0ULL);
       print_pus(o); printf("\n");
